@@ -532,6 +532,10 @@ func growthCases() []growth {
 		{"1 1 {1 index} loop", []string{"stackoverflow"}},
 		{"0 1 1000000 {} for", []string{"stackoverflow"}},
 		{"1000000 {1} repeat", []string{"stackoverflow"}},
+		// recursion in which every level first completes a call that ends in a call by name
+		{"/g {} def /h {g} def /f {h f 1} def f", []string{"execstackoverflow"}},
+		{"/g {} def /h {g} def /k {h} def /f {k k f pop} def f", []string{"execstackoverflow"}},
+		{"/g {1 pop} def /h {true {g} if g} def /f {h {f} exec 1} def f", []string{"execstackoverflow"}},
 		// a loop with an empty body pushes its operands all the same
 		{"600 array {} forall", []string{"stackoverflow"}},
 		{"3 { 200 array {} forall } repeat", []string{"stackoverflow"}},
@@ -730,7 +734,27 @@ func startBody(c *mc.Ctx, item int) mc.Verdict {
 	}
 	// once passed, the check is not repeated — also when the call that passed
 	// it ended with an error or hit the budget afterwards
-	mode := c.Choose(5)
+	mode := c.Choose(7)
+	if mode >= 5 {
+		// the check is passed by the two bytes, whether or not the input goes on to
+		// execute anything, and whatever the caller does to the operation counter
+		intp = postscript.NewInterpreter()
+		intp.CheckStart = true
+		first := "%!PS-Adobe-3.0\n%%Title: nothing is executed here\n% just comments\n"
+		if mode == 6 {
+			first = input
+		}
+		if err := intp.ExecuteString(first); err != nil {
+			return fail("valid-start-rejected", "first call: "+errStr(err))
+		}
+		intp.NumOps = 0 // (a caller who gives every call its own budget)
+		err2 := intp.ExecuteString("8")
+		c.Step()
+		if err2 != nil {
+			return fail("check-repeated", fmt.Sprintf("first call %q passed the start check (NumOps then set back to 0); the next call `8` failed: %s", first, errStr(err2)))
+		}
+		return mc.Pass("accepted-then-unchecked", true)
+	}
 	if mode >= 3 {
 		intp = postscript.NewInterpreter()
 		intp.CheckStart = true
@@ -810,7 +834,41 @@ func eexecDepthRun(k int, through bool) (int, error) {
 	return int(n), err
 }
 
+// what ran (and returned) before has no influence on how deep the next recursion may go
+var depthPreludes = []string{
+	"/g {} def /h {g} def 300 {h} repeat",
+	"/g {} def /h {g} def /k {h} def 0 1 150 {pop k} for h h h",
+	"/h {1 pop} def 200 {{h} exec} repeat",
+	"/u {u2} def /u2 {1 (a) add} def 30 { {u} stopped pop } repeat",
+}
+
+func preludeDepthRun(prelude string) (int, error) {
+	intp := postscript.NewInterpreter()
+	intp.ExecuteString(prelude) // (errors of the prelude are its own business)
+	intp.Stack = intp.Stack[:0]
+	err := intp.ExecuteString("/d 1 array def d 0 0 put /f { d 0 d 0 get 1 add put f 0 pop } def /g { f 0 pop } def g") // (the shape eexecDepthRun(0, false) runs)
+	arr, ok := intp.UserDict["d"].(postscript.Array)
+	if !ok || len(arr) != 1 {
+		return -1, fmt.Errorf("counter lost (%v)", err)
+	}
+	n, _ := arr[0].(postscript.Integer)
+	return int(n), err
+}
+
 func eexecDepthBody(c *mc.Ctx, item int) mc.Verdict {
+	if item >= len(eexecDepths) {
+		prelude := depthPreludes[item-len(eexecDepths)]
+		a0, _ := eexecDepthRun(0, false)
+		n, err := preludeDepthRun(prelude)
+		c.Steps(2)
+		what := fmt.Sprintf("after the program `%s` (a separate Execute call) a counting recursion runs %d rounds (%v); in a fresh interpreter %d", prelude, n, err, a0)
+		if err == nil || !strings.Contains(err.Error(), "execstackoverflow") || n != a0 {
+			v := mc.Fail("C11:eexec-depth:nesting-limit-depends-on-what-ran-before", what)
+			v.Render = what
+			return v
+		}
+		return mc.Pass("same-depth-after-prelude", true)
+	}
 	k := eexecDepths[item]
 	a0, _ := eexecDepthRun(0, false)
 	b0, _ := eexecDepthRun(0, true)
@@ -911,12 +969,12 @@ func main() {
 					HangSeconds: 60,
 				},
 				{
-					Name: "nesting-limit-across-an-eexec-section", Items: len(eexecDepths), Body: eexecDepthBody, Budget: budget,
-					Rule: fmt.Sprintf("a counting non-tail recursion started k in %v procedure levels deep, once directly and once from inside a (hex) eexec section entered at that depth: both are cut off by execstackoverflow, the direct one after (rounds at level 0) - k rounds, the one inside the section after the same total depth (constant offset to the direct one for every k); non-trivial = all", eexecDepths),
+					Name: "nesting-limit-across-an-eexec-section", Items: len(eexecDepths) + len(depthPreludes), Body: eexecDepthBody, Budget: budget,
+					Rule: fmt.Sprintf("a counting non-tail recursion started k in %v procedure levels deep, once directly and once from inside a (hex) eexec section entered at that depth: both are cut off by execstackoverflow, the direct one after (rounds at level 0) - k rounds, the one inside the section after the same total depth (constant offset to the direct one for every k); plus %d programs (hundreds of completed calls that end in calls by name, loops, failing calls) after which, in a later Execute call, the recursion gets exactly as many rounds as in a fresh interpreter; non-trivial = all", eexecDepths, len(depthPreludes)),
 				},
 				{
 					Name: "start-check", Items: 65536 + 1 + 256 + len(startPrefixes), Body: startBody, Budget: budget,
-					Rule: "CheckStart=true with every two-byte prefix (65,536) followed by a newline and a token, the empty input, every one-byte input, and `%!PS` behind every string of 1..3 white-space bytes, a comment line, a byte-order mark, ^D and a printer job header; x 3 continuations on the same interpreter once the check has passed; after a rejection three more inputs without a proper start must be rejected too, then one with `%!` accepted; non-trivial = every case",
+					Rule: "CheckStart=true with every two-byte prefix (65,536) followed by a newline and a token, the empty input, every one-byte input, and `%!PS` behind every string of 1..3 white-space bytes, a comment line, a byte-order mark, ^D and a printer job header; x 5 continuations on the same interpreter once the check has passed (incl. a first input of comments only, and NumOps set back to 0 by the caller); after a rejection three more inputs without a proper start must be rejected too, then one with `%!` accepted; non-trivial = every case",
 				},
 			}
 		},
